@@ -132,7 +132,10 @@ Definition lnk_split (case: list N) : option (N * list N * list packet) :=
   match case with
   | link :: ng :: r =>
       match take ng r with
-      | Some (gaps, np :: r') => match parse_packets_n (N.to_nat np) r' with Some (ps, []) => Some (link, gaps, ps) | _ => None end
+      | Some (gaps, np :: r') => match parse_packets_n (N.to_nat np) r' with
+                                 | Some (ps, []) => Some (link, gaps, ps)
+                                 | Some (ps, [_]) => Some (link, gaps, ps)     (* trailing flag: the receiving node also transmits before polling (no effect in the model: sender and receiver are independent) *)
+                                 | _ => None end
       | _ => None
       end
   | _ => None
